@@ -139,7 +139,7 @@ pub fn lookup(name: &str) -> Option<fn()> {
         .or_else(|| h_ser::lookup(name))
         .or_else(|| h_err::lookup(name))
         .or_else(|| h_hist::lookup(name))
-        .or_else(|| h_set::lookup(name))
+        .or_else(|| h_set::lookup2(name))
 }
 
 /// compiled once per feature set to warm the dependency cache (vlib/kanirun.py: seed_target)
